@@ -510,6 +510,11 @@ func (e *Exec) readOnlyOps(op Op) {
 			}
 		}
 		coll.Close()
+		if e.flag("postCloseRO") {
+			sub.collOpen = false
+			sub.postCloseCalls()
+			e.probe("ro-post-close")
+		}
 		st.Close()
 		simrt.Quiesce(20000, 2)
 	} else if expect != nil {
